@@ -23,12 +23,14 @@ import (
 	"crypto/tls"
 	"fmt"
 	"net"
+	"os"
 	"runtime"
 	"sort"
 	"strconv"
 	"strings"
 	"sync"
 	"sync/atomic"
+	"syscall"
 	"testing"
 	"time"
 
@@ -142,7 +144,7 @@ func genRouteCalls(r interface{ IntN(int) int }, ti, ncalls int, allowCache, all
 			c = CallSpec{Kind: "cache", TTLMs: 60_000, Cmds: []CmdSpec{{Argv: []string{"VKTAG", "ck" + strconv.Itoa(r.IntN(2)), uid(0), "s"}, Keys: 1, Flag: "ro"}}}
 		case x < 98 && allowRecv:
 			// a subscription that ends by its deadline; the channel name doubles as the command's identity
-			c = CallSpec{Kind: "recv", Cmds: []CmdSpec{{Argv: []string{"SUBSCRIBE", uid(0)}}}, TimeoutMs: 50 + r.IntN(400)}
+			c = CallSpec{Kind: "recv", Cmds: []CmdSpec{{Argv: []string{"SUBSCRIBE", uid(0)}, Flag: "ro"}}, TimeoutMs: 50 + r.IntN(400)} // the builder marks SUBSCRIBE read-only
 		default:
 			c = CallSpec{Kind: "do", Cmds: []CmdSpec{{Argv: []string{"ECHO", uid(0)}}}}
 		}
@@ -217,6 +219,9 @@ func genSentinel(seed uint64, tier, variant string) any {
 			// clean failover: roles first, then every sentinel announces it (in a seeded order)
 			n := other(cur)
 			add(GhostSpec{Kind: "failover", Node: n})
+			if r.IntN(2) == 0 {
+				add(GhostSpec{Kind: "view", Node: sentCurrent, Argv: []string{strconv.Itoa(n), "pub"}})
+			}
 			for _, s := range r.Perm(len(sentAddrs)) {
 				add(GhostSpec{Kind: "view", Node: s, Argv: []string{strconv.Itoa(n), "pub"}})
 			}
@@ -225,7 +230,7 @@ func genSentinel(seed uint64, tier, variant string) any {
 			// announcement before the roles change: the ROLE check meets a node that is not (yet) a master
 			n := other(cur)
 			ss := r.Perm(len(sentAddrs))
-			add(GhostSpec{Kind: "view", Node: ss[0], Argv: []string{strconv.Itoa(n), "pub"}})
+			add(GhostSpec{Kind: "view", Node: pick(r, ss[0], sentCurrent, sentCurrent), Argv: []string{strconv.Itoa(n), "pub"}})
 			if r.IntN(2) == 0 {
 				add(GhostSpec{Kind: "view", Node: ss[1], Argv: []string{strconv.Itoa(n), pick(r, "pub", "nopub")}})
 			}
@@ -243,7 +248,7 @@ func genSentinel(seed uint64, tier, variant string) any {
 				add(GhostSpec{Kind: "promote", Node: cur})
 			case 1:
 				add(GhostSpec{Kind: "failover", Node: n})
-				add(GhostSpec{Kind: "view", Node: r.IntN(len(sentAddrs)), Argv: []string{strconv.Itoa(n), "pub"}})
+				add(GhostSpec{Kind: "view", Node: pick(r, r.IntN(len(sentAddrs)), sentCurrent), Argv: []string{strconv.Itoa(n), "pub"}})
 				cur = n
 			}
 		case kind < 85:
@@ -255,7 +260,7 @@ func genSentinel(seed uint64, tier, variant string) any {
 				if role == "master" {
 					inst = pick(r, cur, cur, other(cur))
 				}
-				add(GhostSpec{Kind: "event", Node: r.IntN(len(sentAddrs)), Argv: []string{ch, role, strconv.Itoa(inst)}})
+				add(GhostSpec{Kind: "event", Node: pick(r, r.IntN(len(sentAddrs)), sentCurrent, sentCurrent), Argv: []string{ch, role, strconv.Itoa(inst)}})
 			}
 		default:
 			// loss of a node, a sentinel or single connections
@@ -266,7 +271,7 @@ func genSentinel(seed uint64, tier, variant string) any {
 				step += 10 + r.IntN(60)
 				add(GhostSpec{Kind: "node-up", Node: d})
 			case 1:
-				s := r.IntN(len(sentAddrs))
+				s := pick(r, r.IntN(len(sentAddrs)), sentCurrent)
 				add(GhostSpec{Kind: "sent-down", Node: s})
 				step += 10 + r.IntN(60)
 				add(GhostSpec{Kind: "sent-up", Node: s})
@@ -315,6 +320,7 @@ type sentRun struct {
 	probeTask    *sched.Task
 	probeSpecs   []CallSpec
 	viewMaster   []int // per sentinel: index of the data node its view names as master
+	downCurrent  int
 }
 
 func (sr *sentRun) sim() *sched.Sim { return sr.e.sim }
@@ -474,10 +480,38 @@ func (sr *sentRun) breakLinksOf(addr, kind string) {
 	}
 }
 
+// subscribedSentinel is the index of the sentinel on which this client has a live subscription (-1 = none).
+func (sr *sentRun) subscribedSentinel() int {
+	s := sr.sim()
+	for _, l := range s.LiveLinks() {
+		if role, addr, _ := connClass(l.C.Tag); role == "S" && l.S.Subscribed("+switch-master") {
+			for i, a := range sentAddrs {
+				if a == addr {
+					return i
+				}
+			}
+		}
+	}
+	return -1
+}
+
+const sentCurrent = 9 // GhostSpec.Node: "the sentinel the client is subscribed to when the operation is applied"
+
 func (sr *sentRun) applyOp(g GhostSpec) {
 	s := sr.sim()
 	w := s.W
 	atoi := func(x string) int { n, _ := strconv.Atoi(x); return n }
+	if (g.Kind == "view" || g.Kind == "event" || g.Kind == "sent-down") && g.Node == sentCurrent {
+		if g.Node = sr.subscribedSentinel(); g.Node < 0 {
+			g.Node = 0
+		}
+		if g.Kind == "sent-down" {
+			sr.downCurrent = g.Node
+		}
+	}
+	if g.Kind == "sent-up" && g.Node == sentCurrent {
+		g.Node = sr.downCurrent
+	}
 	switch g.Kind {
 	case "promote":
 		w.Promote(sentDataAddrs[g.Node])
@@ -627,8 +661,20 @@ func (sr *sentRun) waitQuiet(steps int) bool {
 	return rr.Reason == "done"
 }
 
+func realNow() float64 {
+	var tv syscall.Timeval
+	syscall.Gettimeofday(&tv)
+	return float64(tv.Sec) + float64(tv.Usec)/1e6
+}
+
 func execSentinel(t *testing.T, plan any, out *Outcome) {
 	p := plan.(*Plan)
+	t0 := realNow()
+	lap := func(what string) {
+		if os.Getenv("VERIF_DEBUG_LAP") != "" {
+			fmt.Fprintf(os.Stderr, "LAP %-12s %.3f step=%d\n", what, realNow()-t0, curSim.Load().Step)
+		}
+	}
 	e := newEnv(out.Seed, p, out)
 	s := e.sim
 	muxRegReset(16)
@@ -699,6 +745,7 @@ func execSentinel(t *testing.T, plan any, out *Outcome) {
 		return
 	}
 
+	lap("setup")
 	// workload and environment
 	sr.base = s.Step
 	for ti, calls := range p.Tasks {
@@ -744,10 +791,22 @@ func execSentinel(t *testing.T, plan any, out *Outcome) {
 		}
 		return true
 	}
+	// a refresh that cannot succeed in the current state of the world retries without pause; the closing phase below
+	// repairs the world, so the main phase only needs room for the plan's operations and the workload
+	lastDue := 0
+	for _, g := range p.Ghosts {
+		if g.MinStep > lastDue {
+			lastDue = g.MinStep
+		}
+	}
+	if limit := sr.base + lastDue + 1200; limit < s.Cfg.MaxSteps {
+		s.Cfg.MaxSteps = limit
+	}
 	rr = s.Run(func() bool { return s.AllTasksDone() && allOps() })
 	out.Reason = rr.Reason
 	sr.envOn = false
 
+	lap("main")
 	// closing phase: faults stop, the world becomes consistent, the switch to the final master is announced
 	s.Heal()
 	final := xInt(p, "final", 0)
@@ -797,6 +856,7 @@ func execSentinel(t *testing.T, plan any, out *Outcome) {
 		s.Run(s.AllTasksDone)
 		settled = sr.waitQuiet(2000)
 	}
+	lap("closing")
 	for _, tk := range s.Tasks {
 		if rec := tk.Running(); rec != nil {
 			rec.Hung = true
@@ -815,12 +875,31 @@ func execSentinel(t *testing.T, plan any, out *Outcome) {
 		}
 	}
 	stopClient()
+	// let connection clean-up (lock grants, close grace periods) run out before the simulator is shut down
+	s.Cfg.DrainBound = 2 * time.Second
+	s.Cfg.MaxSteps = s.Step + 600
+	s.Run(func() bool { return false })
+	lap("closed")
+	if os.Getenv("VERIF_DEBUG_STACKS") == "2" {
+		buf := make([]byte, 1<<20)
+		buf = buf[:runtime.Stack(buf, true)]
+		os.Stderr.WriteString("=== goroutines before finish ===\n")
+		os.Stderr.Write(buf)
+	}
 	e.finish()
+	if os.Getenv("VERIF_DEBUG_STACKS") == "1" {
+		buf := make([]byte, 1<<20)
+		buf = buf[:runtime.Stack(buf, true)]
+		os.Stderr.WriteString("=== goroutines after finish ===\n")
+		os.Stderr.Write(buf)
+	}
 	if out.HarnessErr != "" {
 		return
 	}
+	lap("finish")
 	checkCommon(e)
 	sr.judge()
+	lap("judge")
 }
 
 // ---- oracle ----
